@@ -468,8 +468,7 @@ def judge_curve(ctx, rec, res, g, name):
             w, d = rec.outs[0][1]
             s = sum(x << i for i, x in enumerate(d))
             res.info["wnaf_digits_sum_ok" if s == A[0][1] else "wnaf_digits_sum_differs"] += 1
-            if d:
-                res.info["wnaf_maxlen"] = max(res.info.get("wnaf_maxlen", 0), len(d))
+            res.info["wnaf_len_bucket_%d" % (len(d) // 32 * 32)] += 1
         elif rec.status == "panic" and A[0][1] < (1 << 255) and 2 <= A[1][1] <= 22:
             res.evals += 1
             return "a digit string (no panic) for a scalar below 2^255"
